@@ -1,3 +1,53 @@
-import EspadaVerif.Model.Range
+/-
+C10 — Every parsed range holds only real combos with weights between 0 and 1.
+-/
+import EspadaVerif.Lemmas.TextDefs
+import EspadaVerif.Props.C09
+
 namespace EspadaVerif.C10
+open EspadaVerif TextDefs
+
+variable {W : Type}
+
+/-- **C10 (combos).** Whatever string is parsed as a range, every entry is a combo of two different valid cards
+(stored in canonical order). -/
+theorem C10_combo (wt : WText W) (s : Bytes) (r : HandRange W) (h : parseRange wt s = .ok r) :
+    ∀ e ∈ r, ComboOk e.1 := by
+  sorry
+
+/-- **C10 (weights).** Every weight of a parsed token / range lies in the weight domain (= [0,1]), given only that
+the weight grammar's texts parse into the domain and that 1 is in it. -/
+theorem C10_weight_token (wt : WText W) (inDom : W → Prop) (hone : inDom wt.one)
+    (hparse : ∀ t w, isWeightText t = true → wt.parseW t = some w → inDom w)
+    (s : Bytes) (t : Token W) (h : parseToken wt s = .ok t) : inDom t.prob := by
+  sorry
+
+theorem C10_weight (wt : WText W) (inDom : W → Prop) (hone : inDom wt.one)
+    (hparse : ∀ t w, isWeightText t = true → wt.parseW t = some w → inDom w)
+    (s : Bytes) (r : HandRange W) (h : parseRange wt s = .ok r) : ∀ e ∈ r, inDom e.2 := by
+  sorry
+
+/-- the weight grammar admits exactly `0`, `0.d+`, `1`, `1.0+` -/
+theorem C10_grammar (t : Bytes) : isWeightText t = true ↔
+    (t = [48] ∨ (∃ ds, ds ≠ [] ∧ (∀ d ∈ ds, 48 ≤ d ∧ d ≤ 57) ∧ t = 48 :: 46 :: ds)
+     ∨ t = [49] ∨ (∃ zs, zs ≠ [] ∧ (∀ z ∈ zs, z = 48) ∧ t = 49 :: 46 :: zs)) := by
+  sorry
+
+/-- **C10 (probabilities).** A product, taken left to right from 1, of weights of the domain stays in the domain,
+for every product under which the domain is closed (binary32 multiplication on [0,1] is: rounding is
+monotone and fixes 0 and 1). -/
+theorem C10_prob (ops : WOps W) (inDom : W → Prop) (hone : inDom ops.one)
+    (hmul : ∀ a b, inDom a → inDom b → inDom (ops.mul a b)) (ws : List W) (h : ∀ w ∈ ws, inDom w) :
+    inDom (ws.foldl ops.mul ops.one) := by
+  sorry
+
+/-- **C10 (cards).** No showdown enumerated from proper ranges (in particular parsed ones, by `C10_combo`)
+contains the same card twice: this is `C02_payload`. -/
+theorem C10_cards (ops : WOps W) (flop : List Card) (ranges : List (List (Combo × W))) (a b : Nat × Nat)
+    (h : C02.WfInput flop ranges) (d : Spec.Deal W)
+    (hd : d ∈ Spec.deals (flop.map Card.code) (C02.specEntries ranges) a b) :
+    ∃ sd : Showdown W, C02.showdownOfDeal ops flop d = .ok (some sd)
+      ∧ (sd.board ++ sd.players.flatMap (fun p => [p.hole.fst, p.hole.snd])).Nodup := by
+  sorry
+
 end EspadaVerif.C10
